@@ -10,7 +10,7 @@ here drive the real loop with a pipe held by the harness, in units of 50 ms, nev
 EOF within 40 % of the leak timeout, and a failure that depends on measured time is re-run with
 the unit doubled (x3) and counts only if it reproduces every time."""
 import itertools, json, os
-import vlib
+import vlib, gen_tie
 from vlib import coq_list, coq_bool
 from props import retry_rig as rig
 
@@ -332,6 +332,9 @@ def run(tier, seed):
     chk = vlib.Check(PROP, tier, seed)
     gate = vlib.coq_gate(PROP)
     vlib.gate_or_violation(chk, gate)
+    # glue code (DESIGN 11.7, third round): helpers::signal_str, the number -> name table behind "SIGxxx" in status lines,
+    # read from the source and compared with the Linux x86_64 numbering
+    gen_tie.gate(chk, ['signal_str'], gate, family="glue")
     binary, err = vlib.build_harness()
     if binary is None:
         chk.violation("broken-obligation", "harness-build", dict(error=err), no_input=True)
